@@ -70,25 +70,33 @@ class Ctx:
         self.findings = load_known_findings()
 
     # ---------------------------------------------------------------- proof side
-    def coq_build(self):
-        rc, out, dt = sh([os.path.join(ROOT, "bin", "coqbuild")], timeout=3300)
+    def coq_build(self, relfile=None):
+        """Build the property file and everything it depends on (not unrelated components)."""
+        cmd = [os.path.join(ROOT, "bin", "coqbuild")]
+        if relfile:
+            cmd.append("theories/" + relfile[:-2] + ".vo")
+        rc, out, dt = sh(cmd, timeout=3300)
         self.proof["build_rc"] = rc
         self.proof["build_s"] = round(dt, 1)
         if rc != 0:
             self.proof["build_log_tail"] = out[-3000:]
         return rc == 0, out
 
-    def gate(self):
+    def gate(self, relfile=None):
         bad = []
-        for base in ("coq/theories", "coq/extract"):
-            for dp, _, fns in os.walk(os.path.join(ROOT, base)):
-                for fn in fns:
-                    if not fn.endswith(".v"):
-                        continue
-                    p = os.path.join(dp, fn)
-                    src = strip_coq_comments(open(p, encoding="utf-8").read())
-                    for m in FORBIDDEN.finditer(src):
-                        bad.append("%s: %s" % (os.path.relpath(p, ROOT), m.group(0)))
+        files = []
+        if relfile:
+            files = [os.path.join(ROOT, "coq", "theories", f) for f in self.cone(relfile)]
+            ed = os.path.join(ROOT, "coq", "extract")
+            files += [os.path.join(ed, f) for f in os.listdir(ed) if f.endswith(".v")] if os.path.isdir(ed) else []
+        else:
+            for base in ("coq/theories", "coq/extract"):
+                for dp, _, fns in os.walk(os.path.join(ROOT, base)):
+                    files += [os.path.join(dp, fn) for fn in fns if fn.endswith(".v")]
+        for p in files:
+            src = strip_coq_comments(open(p, encoding="utf-8").read())
+            for m in FORBIDDEN.finditer(src):
+                bad.append("%s: %s" % (os.path.relpath(p, ROOT), m.group(0)))
         flags = open(os.path.join(ROOT, "coq", "_CoqProject")).read() if os.path.exists(
             os.path.join(ROOT, "coq", "_CoqProject")) else ""
         for m in FORBIDDEN.finditer(flags):
@@ -320,8 +328,8 @@ class Ctx:
 
     def standard_run(self):
         mod = self.mod
-        ok_build, log = self.coq_build()
-        gate = self.gate()
+        ok_build, log = self.coq_build(mod.PROPERTY_FILE)
+        gate = self.gate(mod.PROPERTY_FILE)
         stmts, qed = self.proof_obligations(mod.PROPERTY_FILE)
         ok_pa = self.print_assumptions(mod.PROPERTY_FILE) if ok_build else False
         if not ok_build or gate or not ok_pa:
